@@ -91,6 +91,14 @@ Theorem C16_gas_iteration_out_of_gas_at_the_crossing l1 k v l2 w acc lim :
              lim < w_consumed w' /\
              w_consumed w' <= w_consumed w + iter_cost (w_cfg w) l1 + step_cost (w_cfg w) (k, v).
 Proof. exact (gas_iteration_out_of_gas l1 k v l2 w acc lim). Qed.
+(* the trace of an iteration: a complete loop over a traced store returns exactly the in-range items and appends, per
+   item and in iteration order, one iterKey line and one iterValue line (newest first in w_trace); no gas is touched *)
+Theorem C16_trace_iteration_exact m st en asc w :
+  let l := kv_range m st en asc in
+  exists w', s_iter_all (Trace (Base m)) st en asc w = (Ok l, Trace (Base m), w') /\
+             w_trace w' = rev (trace_lines l) ++ w_trace w /\
+             w_consumed w' = w_consumed w /\ w_limit w' = w_limit w /\ w_cfg w' = w_cfg w.
+Proof. exact (trace_store_iteration_exact m st en asc w). Qed.
 Example C16_ex_iter_gas :
   let w := {| w_limit := Some 1000; w_consumed := 0; w_trace := []; w_cfg := kv_gas_config |} in
   let '(r, _, w') := s_iter_all (Gas (Base [([1], [7; 7]); ([2], [8])])) [] None true w in
@@ -116,3 +124,4 @@ Print Assumptions C16_gas_set_exact.
 Print Assumptions C16_prefix_iteration_is_the_prefixed_items.
 Print Assumptions C16_gas_iteration_exact.
 Print Assumptions C16_gas_iteration_out_of_gas_at_the_crossing.
+Print Assumptions C16_trace_iteration_exact.
